@@ -6196,3 +6196,479 @@ func ruleExitClosesThroughStateCheck(c *core.Ctx) {
 		c.Undecided(rule, "anchor/__exit__", 0, "no emitted __exit__ found in python/protocols")
 	}
 }
+
+// DB1 (C14): one default base type. An enum or flags definition without `base:` is an int32 — in the validation of its
+// values, in the schema, on the wire of every back end. Wherever the absence of EnumDefinition.BaseType is handled
+// (`if e.BaseType == nil {...}` / the else of `!= nil`), a primitive of the dsl that is named there is the int32 one:
+// a back end that falls back to another primitive writes the values with another encoding (plain varint instead of
+// zig-zag) than the other two languages read.
+func ruleEnumDefaultBaseIsInt32(c *core.Ctx) {
+	const rule = "DB1"
+	c.Rule(rule, "in every branch that handles `EnumDefinition.BaseType == nil` (also through an explaining local), a dsl primitive named there (…Type variable or PrimitiveDefinition constant) is int32", 6)
+	for _, d := range c.AllDecls() {
+		p := c.DeclPkg(d)
+		if p == nil || d.Body == nil || c.IsTestFile(d.Pos()) || !strings.HasPrefix(p.PkgPath, core.Mod) {
+			continue
+		}
+		info := p.TypesInfo
+		isBaseType := func(e ast.Expr, depth int) bool { return false }
+		var isBT func(e ast.Expr, depth int) bool
+		isBT = func(e ast.Expr, depth int) bool {
+			switch x := ast.Unparen(e).(type) {
+			case *ast.SelectorExpr:
+				if x.Sel.Name != "BaseType" {
+					return false
+				}
+				nt := core.NamedOf(derefType(info.TypeOf(x.X)))
+				return nt != nil && nt.Obj().Name() == "EnumDefinition"
+			case *ast.Ident:
+				if depth < 2 {
+					if r := singleDefRHS(info, d.Body, x); r != ast.Expr(x) {
+						return isBT(r, depth+1)
+					}
+					// `newBaseType := e.BaseType` followed by the default: the first definition counts
+					obj := info.ObjectOf(x)
+					var first ast.Expr
+					ast.Inspect(d.Body, func(m ast.Node) bool {
+						if as, ok := m.(*ast.AssignStmt); ok && first == nil && as.Tok == token.DEFINE && len(as.Lhs) == len(as.Rhs) {
+							for i, l := range as.Lhs {
+								if id, ok := l.(*ast.Ident); ok && info.ObjectOf(id) == obj {
+									first = as.Rhs[i]
+								}
+							}
+						}
+						return first == nil
+					})
+					if first != nil {
+						return isBT(first, depth+1)
+					}
+				}
+			}
+			return false
+		}
+		isBaseType = isBT
+		n := 0
+		ast.Inspect(d.Body, func(nn ast.Node) bool {
+			ifs, ok := nn.(*ast.IfStmt)
+			if !ok {
+				return true
+			}
+			be, ok := ast.Unparen(ifs.Cond).(*ast.BinaryExpr)
+			if !ok || (be.Op != token.EQL && be.Op != token.NEQ) {
+				return true
+			}
+			var tested ast.Expr
+			switch {
+			case isNilIdent(be.Y):
+				tested = be.X
+			case isNilIdent(be.X):
+				tested = be.Y
+			default:
+				return true
+			}
+			if !isBaseType(tested, 0) {
+				return true
+			}
+			var branch ast.Node = ifs.Body
+			if be.Op == token.NEQ {
+				if ifs.Else == nil {
+					return true
+				}
+				branch = ifs.Else
+			}
+			// primitives named in the nil branch
+			var wrong []string
+			named := 0
+			ast.Inspect(branch, func(m ast.Node) bool {
+				var id *ast.Ident
+				switch x := m.(type) {
+				case *ast.SelectorExpr:
+					id = x.Sel
+				case *ast.Ident:
+					id = x
+				default:
+					return true
+				}
+				obj := info.Uses[id]
+				if obj == nil || obj.Pkg() == nil || !strings.HasSuffix(obj.Pkg().Path(), "pkg/dsl") || obj.Parent() != obj.Pkg().Scope() {
+					return true
+				}
+				switch obj.(type) {
+				case *types.Var, *types.Const:
+				default:
+					return true
+				}
+				isPrim := false
+				if nt := core.NamedOf(derefType(obj.Type())); nt != nil {
+					switch nt.Obj().Name() {
+					case "PrimitiveDefinition":
+						isPrim = true
+					case "SimpleType":
+						isPrim = strings.HasSuffix(obj.Name(), "Type")
+					}
+				}
+				if _, isIface := obj.Type().Underlying().(*types.Interface); isIface && strings.HasSuffix(obj.Name(), "Type") {
+					isPrim = true
+				}
+				if !isPrim {
+					return true
+				}
+				named++
+				if !strings.Contains(strings.ToLower(obj.Name()), "int32") || strings.Contains(strings.ToLower(obj.Name()), "uint32") {
+					wrong = append(wrong, obj.Name())
+				}
+				return true
+			})
+			if named == 0 {
+				return true
+			}
+			n++
+			key := fmt.Sprintf("%s/default base#%d", c.FuncName(d), n)
+			c.Check(len(wrong) == 0, rule, key, ifs.Pos(), "the default base type named here is int32",
+				fmt.Sprintf("where `%s` is nil the code falls back to %v: an enum / flags without `base:` is an int32 everywhere else (validation, schema, the other back ends)", types.ExprString(tested), wrong))
+			return true
+		})
+	}
+}
+
+// KF1 (C11/C10): YAML is decoded strictly everywhere. A key that no field of the target struct declares is an error —
+// in the model files and in `_package.yml` alike — because a misspelt key (`generateNDJSON`) would otherwise be dropped
+// silently and the run would succeed with something else than what was asked for. Strictness does not propagate into
+// custom unmarshallers: a `Decode` of a sub-node inside UnmarshalYAML starts a new, lenient decoder. So: every
+// (*yaml.Node).DecodeWithOptions passes KnownFields: true, (*yaml.Node).Decode is not used for a destination that
+// contains a struct, and every yaml.Decoder has KnownFields(true) called on it in the function that creates it.
+func ruleYamlDecodedStrictly(c *core.Ctx) {
+	const rule = "KF1"
+	c.Rule(rule, "pkg/dsl, pkg/packaging, internal/cmd: every YAML decode into a destination that contains a struct rejects unknown keys (DecodeWithOptions{KnownFields: true}; Decoder.KnownFields(true) before Decode; no plain Node.Decode)", 12)
+	hasStruct := func(t types.Type) bool {
+		seen := map[types.Type]bool{}
+		var rec func(t types.Type) bool
+		rec = func(t types.Type) bool {
+			if t == nil || seen[t] {
+				return false
+			}
+			seen[t] = true
+			switch u := t.Underlying().(type) {
+			case *types.Struct:
+				return true
+			case *types.Pointer:
+				return rec(u.Elem())
+			case *types.Slice:
+				return rec(u.Elem())
+			case *types.Array:
+				return rec(u.Elem())
+			case *types.Map:
+				return rec(u.Elem())
+			}
+			return false
+		}
+		return rec(t)
+	}
+	for _, d := range c.AllDecls() {
+		p := c.DeclPkg(d)
+		if p == nil || d.Body == nil || c.IsTestFile(d.Pos()) || !strings.HasPrefix(p.PkgPath, core.Mod) {
+			continue
+		}
+		info := p.TypesInfo
+		n := 0
+		strictDecoders := map[types.Object]bool{}
+		ast.Inspect(d.Body, func(nn ast.Node) bool {
+			ce, ok := nn.(*ast.CallExpr)
+			if !ok {
+				return true
+			}
+			f := core.Callee(info, ce)
+			if f == nil || f.Pkg() == nil || !strings.Contains(f.Pkg().Path(), "yaml") {
+				return true
+			}
+			sel, _ := ast.Unparen(ce.Fun).(*ast.SelectorExpr)
+			if sel == nil {
+				return true
+			}
+			recv := ""
+			if nt := core.NamedOf(derefType(info.TypeOf(sel.X))); nt != nil {
+				recv = nt.Obj().Name()
+			}
+			switch {
+			case recv == "Decoder" && f.Name() == "KnownFields":
+				if len(ce.Args) == 1 {
+					if tv, ok := info.Types[ce.Args[0]]; ok && tv.Value != nil && constant.BoolVal(tv.Value) {
+						strictDecoders[identObj(info, sel.X)] = true
+					}
+				}
+			case recv == "Decoder" && f.Name() == "Decode":
+				n++
+				key := fmt.Sprintf("%s/Decoder.Decode#%d", c.FuncName(d), n)
+				c.Check(strictDecoders[identObj(info, sel.X)], rule, key, ce.Pos(), "KnownFields(true) was called on the decoder", "the decoder was not made strict (KnownFields(true)) before Decode: unknown keys are dropped silently")
+			case recv == "Node" && f.Name() == "DecodeWithOptions" && len(ce.Args) == 2:
+				n++
+				key := fmt.Sprintf("%s/Node.DecodeWithOptions#%d", c.FuncName(d), n)
+				strict := false
+				if cl, ok := ast.Unparen(ce.Args[1]).(*ast.CompositeLit); ok {
+					for _, e := range cl.Elts {
+						if kv, ok := e.(*ast.KeyValueExpr); ok && types.ExprString(kv.Key) == "KnownFields" {
+							if tv, ok := info.Types[kv.Value]; ok && tv.Value != nil && constant.BoolVal(tv.Value) {
+								strict = true
+							}
+						}
+					}
+				}
+				c.Check(strict, rule, key, ce.Pos(), "KnownFields: true", "DecodeWithOptions without KnownFields: true: unknown keys of this node are dropped silently")
+			case recv == "Node" && f.Name() == "Decode" && len(ce.Args) == 1:
+				if !hasStruct(info.TypeOf(ce.Args[0])) {
+					return true
+				}
+				n++
+				key := fmt.Sprintf("%s/Node.Decode#%d", c.FuncName(d), n)
+				c.Bad(rule, key, ce.Pos(), "a plain Node.Decode into `"+types.ExprString(ce.Args[0])+"` starts a lenient decoder (strictness of the outer decoder does not carry into a custom unmarshaller): unknown or misspelt keys of this section are accepted and ignored")
+			}
+			return true
+		})
+	}
+}
+
+// W4 (C12): what a writer keeps it also records. A file writer that remembers the files it wrote in a field and later
+// removes every file of the output directory that is not in that list (stale-file removal) must record a file on every
+// path on which it reports success — also when it finds the file on disk already up to date. Otherwise the second,
+// unchanged run deletes the files the first run wrote and the third run writes them again: the output oscillates.
+// The recorder/remover pair is found structurally: a method that calls os.Remove and ranges over a slice field F of its
+// receiver is the remover; the other methods of the type that append to F are the recorders.
+func ruleKeptFilesAreRecorded(c *core.Ctx) {
+	const rule = "W4"
+	c.Rule(rule, "a method that appends to the slice field a stale-file remover of the same type consults records the file on every path that returns a nil error", 1)
+	type fieldKey struct {
+		recv  *types.Named
+		field string
+	}
+	removers := map[fieldKey]token.Pos{}
+	recvOf := func(d *ast.FuncDecl, info *types.Info) (*types.Named, types.Object) {
+		if d.Recv == nil || len(d.Recv.List) != 1 || len(d.Recv.List[0].Names) != 1 {
+			return nil, nil
+		}
+		obj := info.Defs[d.Recv.List[0].Names[0]]
+		if obj == nil {
+			return nil, nil
+		}
+		return core.NamedOf(derefType(obj.Type())), obj
+	}
+	for _, d := range c.AllDecls() {
+		p := c.DeclPkg(d)
+		if p == nil || d.Body == nil || c.IsTestFile(d.Pos()) || !strings.HasPrefix(p.PkgPath, core.Mod) {
+			continue
+		}
+		info := p.TypesInfo
+		nt, robj := recvOf(d, info)
+		if nt == nil {
+			continue
+		}
+		removes := false
+		ast.Inspect(d.Body, func(n ast.Node) bool {
+			if ce, ok := n.(*ast.CallExpr); ok {
+				if f := core.Callee(info, ce); f != nil && (core.FullName(f) == "os.Remove" || core.FullName(f) == "os.RemoveAll") {
+					removes = true
+				}
+			}
+			return true
+		})
+		if !removes {
+			continue
+		}
+		ast.Inspect(d.Body, func(n ast.Node) bool {
+			if rs, ok := n.(*ast.RangeStmt); ok {
+				if sel, ok := ast.Unparen(rs.X).(*ast.SelectorExpr); ok && identObj(info, sel.X) == robj {
+					if _, isSlice := info.TypeOf(sel).Underlying().(*types.Slice); isSlice {
+						removers[fieldKey{nt, sel.Sel.Name}] = d.Pos()
+					}
+				}
+			}
+			return true
+		})
+	}
+	n := 0
+	for _, d := range c.AllDecls() {
+		p := c.DeclPkg(d)
+		if p == nil || d.Body == nil || c.IsTestFile(d.Pos()) || !strings.HasPrefix(p.PkgPath, core.Mod) {
+			continue
+		}
+		info := p.TypesInfo
+		nt, robj := recvOf(d, info)
+		if nt == nil {
+			continue
+		}
+		// appends to a consulted field
+		var records []ast.Node
+		field := ""
+		ast.Inspect(d.Body, func(x ast.Node) bool {
+			as, ok := x.(*ast.AssignStmt)
+			if !ok || len(as.Lhs) != 1 || len(as.Rhs) != 1 {
+				return true
+			}
+			sel, ok := ast.Unparen(as.Lhs[0]).(*ast.SelectorExpr)
+			if !ok || identObj(info, sel.X) != robj {
+				return true
+			}
+			if _, ok := removers[fieldKey{nt, sel.Sel.Name}]; !ok {
+				return true
+			}
+			if ce, ok := ast.Unparen(as.Rhs[0]).(*ast.CallExpr); ok {
+				if id, ok := ce.Fun.(*ast.Ident); ok && id.Name == "append" {
+					records = append(records, as)
+					field = sel.Sel.Name
+				}
+			}
+			return true
+		})
+		if len(records) == 0 {
+			continue
+		}
+		sig, _ := info.Defs[d.Name].Type().(*types.Signature)
+		if sig == nil || sig.Results().Len() == 0 || sig.Results().At(sig.Results().Len()-1).Type().String() != "error" {
+			continue
+		}
+		fc := core.NewCFG(d.Body, info)
+		cut := map[*cfg.Block]bool{}
+		recIdx := map[*cfg.Block]int{}
+		for _, r := range records {
+			if b := fc.BlockOf(r); b != nil {
+				cut[b] = true
+				recIdx[b] = fc.NodeIndex(b, r)
+			}
+		}
+		reach := fc.ReachableBlocks(fc.Entry(), nil, cut)
+		ast.Inspect(d.Body, func(x ast.Node) bool {
+			if _, ok := x.(*ast.FuncLit); ok {
+				return false
+			}
+			ret, ok := x.(*ast.ReturnStmt)
+			if !ok || len(ret.Results) == 0 || !isNilIdent(ret.Results[len(ret.Results)-1]) {
+				return true
+			}
+			n++
+			key := fmt.Sprintf("%s/success return#%d", c.FuncName(d), n)
+			b := fc.BlockOf(ret)
+			ok2 := true
+			switch {
+			case b == nil:
+				ok2 = false
+			case cut[b]:
+				ok2 = fc.NodeIndex(b, ret) > recIdx[b] || !reach[b]
+				if !ok2 {
+					// the return stands in the recording block in front of the record: reachable without it
+					ok2 = false
+				}
+			default:
+				ok2 = !reach[b]
+			}
+			c.Check(ok2, rule, key, ret.Pos(), "the file is recorded in "+field+" on every path to this return",
+				fmt.Sprintf("this `return nil` can be reached without appending to `%s`, the list the stale-file removal of %s consults: a file the writer decided to keep is deleted by the clean-up of the same run", field, nt.Obj().Name()))
+			return true
+		})
+	}
+	if len(removers) == 0 {
+		c.Undecided(rule, "anchor/stale-file remover", 0, "no method that removes files not listed in a field of its receiver was found")
+	}
+}
+
+// MK1 (C18): a memo is read with the key it is written with. A function that looks a value up in a map and leaves with
+// it when found (`if v, ok := m[k]; ok { return v }`) and stores into the same map further down is a cache: the two
+// keys are the same expression. A store under another key never hits — every import edge parses the package again and
+// a package reachable by two paths appears twice among the namespaces.
+func ruleMemoKeysAgree(c *core.Ctx) {
+	const rule = "MK1"
+	c.Rule(rule, "in a function that returns early on a comma-ok hit of a map and stores into the same map, some store uses the key expression of the lookup", 3)
+	for _, d := range c.AllDecls() {
+		p := c.DeclPkg(d)
+		if p == nil || d.Body == nil || c.IsTestFile(d.Pos()) || !strings.HasPrefix(p.PkgPath, core.Mod) {
+			continue
+		}
+		info := p.TypesInfo
+		canon := func(e ast.Expr) string {
+			e = ast.Unparen(e)
+			for i := 0; i < 2; i++ {
+				id, ok := e.(*ast.Ident)
+				if !ok {
+					break
+				}
+				r := singleDefRHS(info, d.Body, id)
+				if r == ast.Expr(id) {
+					break
+				}
+				e = ast.Unparen(r)
+			}
+			return types.ExprString(e)
+		}
+		type lookup struct {
+			m   types.Object
+			key ast.Expr
+			pos token.Pos
+		}
+		var lookups []lookup
+		stores := map[types.Object][]ast.Expr{}
+		ast.Inspect(d.Body, func(nn ast.Node) bool {
+			switch x := nn.(type) {
+			case *ast.IfStmt:
+				as, ok := x.Init.(*ast.AssignStmt)
+				if !ok || len(as.Lhs) != 2 || len(as.Rhs) != 1 {
+					return true
+				}
+				ix, ok := ast.Unparen(as.Rhs[0]).(*ast.IndexExpr)
+				if !ok {
+					return true
+				}
+				if _, isMap := derefType(info.TypeOf(ix.X)).Underlying().(*types.Map); !isMap {
+					return true
+				}
+				okObj := identObj(info, as.Lhs[1])
+				if okObj == nil || identObj(info, x.Cond) != okObj {
+					return true
+				}
+				// the hit branch leaves the function
+				leaves := false
+				ast.Inspect(x.Body, func(m ast.Node) bool {
+					if _, ok := m.(*ast.FuncLit); ok {
+						return false
+					}
+					if _, ok := m.(*ast.ReturnStmt); ok {
+						leaves = true
+					}
+					return true
+				})
+				if mo := identObj(info, ix.X); mo != nil && leaves {
+					lookups = append(lookups, lookup{mo, ix.Index, x.Pos()})
+				}
+			case *ast.AssignStmt:
+				for _, l := range x.Lhs {
+					if ix, ok := ast.Unparen(l).(*ast.IndexExpr); ok {
+						if mo := identObj(info, ix.X); mo != nil {
+							if _, isMap := derefType(info.TypeOf(ix.X)).Underlying().(*types.Map); isMap {
+								stores[mo] = append(stores[mo], ix.Index)
+							}
+						}
+					}
+				}
+			}
+			return true
+		})
+		n := 0
+		for _, lk := range lookups {
+			ss := stores[lk.m]
+			if len(ss) == 0 {
+				continue
+			}
+			n++
+			want := canon(lk.key)
+			agree := false
+			var got []string
+			for _, s := range ss {
+				g := canon(s)
+				got = append(got, g)
+				if g == want {
+					agree = true
+				}
+			}
+			key := fmt.Sprintf("%s/%s#%d", c.FuncName(d), lk.m.Name(), n)
+			c.Check(agree, rule, key, lk.pos, "looked up and stored under `"+want+"`",
+				fmt.Sprintf("`%s` is looked up under `%s` but only ever stored under %v: the early return never hits and the work is repeated for every path that leads here", lk.m.Name(), want, got))
+		}
+	}
+}
